@@ -480,10 +480,10 @@ RULE = ("(a) accepted programs of the whole-repertoire workload run under a moni
 
 
 def main(tier, seed):
-    params = {"n": 6000 if tier == "quick" else 150000, "bases": 1600 if tier == "quick" else 40000, "max_sites": 12 if tier == "quick" else 40}
+    params = {"n": 6000 if tier == "quick" else 60000, "bases": 1600 if tier == "quick" else 15000, "max_sites": 12 if tier == "quick" else 40}
     return driver.run_check(
         PID, shard, params, tier, seed,
-        min_evaluations=15000 if tier == "quick" else 400000,
+        min_evaluations=15000 if tier == "quick" else 250000,
         rule=RULE,
         assumptions=["error families are coarse sets fixed in the oracle (type edits: TypeMismatch or ArgumentTypeMismatch; argument edits: ArgumentCountMismatch, ArgumentTypeMismatch, TypeMismatch, FunctionNeedsArguments)",
                      "a type edit in a block header is located by the row of that header line (ELSEIF / CASE / LOOP lines have their own rows)"],
